@@ -28,6 +28,8 @@ pub fn venc(v: &DbValue) -> Value {
             let c: Vec<u8> = if s.len() <= 12 { s.as_bytes().to_vec() } else { vec![] };
             json!({"t": "s", "n": 0, "s": s, "c": c})
         }
+        // big byte arrays travel as (length, digest): the specification only needs equality of tokens
+        DbValue::Bytes(b) if b.len() > 64 => json!({"t": "b", "n": b.len(), "s": format!("fnv:{:016x}", vcore::fnv(b)), "c": []}),
         DbValue::Bytes(b) => json!({"t": "b", "n": b.len(), "s": vcore::hex(b), "c": []}),
         DbValue::VecI64(x) => {
             let c: Vec<i64> = if x.len() <= 8 && x.iter().all(|i| small(*i as i128)) { x.clone() } else { vec![] };
